@@ -108,9 +108,15 @@ nostd::shared_ptr<opentelemetry::trace::Span> Tracer::StartSpan(
 
   auto sampling_result = context_->GetSampler().ShouldSample(parent_context, trace_id, name,
                                                              options.kind, attributes, links);
+  // The sampled flag reflects the decision taken for this span, it is never inherited
+  // from the parent: a sampled parent does not make a dropped child sampled.
   if (sampling_result.IsSampled())
   {
     flags |= opentelemetry::trace::TraceFlags::kIsSampled;
+  }
+  else
+  {
+    flags &= static_cast<uint8_t>(~opentelemetry::trace::TraceFlags::kIsSampled);
   }
 
 #if 1
